@@ -53,7 +53,18 @@ def interval(n, env=None):
         rid = (n.get("referencedDecl") or {}).get("id")
         if rid in env:
             return env[rid]
-        return type_range(ir.qtype(n))
+        by_id = env.get("__by_id__") if isinstance(env, dict) else None
+        tr = type_range(ir.qtype(n))
+        if by_id is not None and rid not in env.get("__busy__", ()):
+            dec = by_id.get(rid)
+            # a const local is the value of its initialiser, converted to the local's type
+            if dec is not None and dec.get("kind") == "VarDecl" and ir.qtype(dec).lstrip().startswith("const ") and ir.ekids(dec) and "&" not in ir.qtype(dec) and "*" not in ir.qtype(dec):
+                env2 = dict(env)
+                env2["__busy__"] = set(env.get("__busy__", ())) | {rid}
+                iv = interval(ir.ekids(dec)[-1], env2)
+                if iv is not None and tr is not None:
+                    return iv if (tr[0] <= iv[0] and iv[1] <= tr[1]) else tr
+        return tr
     if k == "UnaryOperator":
         op = n.get("opcode")
         lits = env.get("__lits__") if isinstance(env, dict) else None
@@ -155,7 +166,19 @@ def for_loop_var_range(for_stmt):
     if b is None or b[0] != b[1]:
         return None
     i = ir.strip(inc)
-    if i.get("kind") != "UnaryOperator" or i.get("opcode") != "++":
+    parts = []
+
+    def flat(x):
+        x = ir.strip(x)
+        if x.get("kind") == "BinaryOperator" and x.get("opcode") == ",":
+            for y in ir.ekids(x):
+                flat(y)
+        else:
+            parts.append(x)
+    flat(i)
+    mine = [x for x in parts if x.get("kind") == "UnaryOperator" and x.get("opcode") == "++" and
+            (ir.strip(ir.ekids(x)[0]).get("referencedDecl") or {}).get("id") == vd.get("id")]
+    if len(mine) != 1:
         return None
     hi = b[0] if c["opcode"] == "<=" else b[0] - 1
     return vd.get("id"), (a[0], hi)
